@@ -108,21 +108,25 @@ Section Seq.
       ps_seqof (calls1 ++ calls2) x (wrap k).
   Proof. intros. apply H0. exact H. Qed.
 
-  (* coap_op_resource_deleted = counter entry, then dynamic-resource entry *)
+  (* coap_op_resource_deleted = dynamic-resource entry, then counter entry *)
   Lemma ps_seqof_res_deleted : forall R n calls (x : R) k,
     ps_seqof calls x k ->
-    ps_seqof (CCntDeleted n :: CDynDeleted n :: calls) x
+    ps_seqof (CDynDeleted n :: CCntDeleted n :: calls) x
              (ps_guard (ps_res_deleted fuel true true n) k).
   Proof.
     intros R n calls x k Hk.
     eapply PsSeqEqv.
-    - apply (PsSeqGuard (CCntDeleted n)). apply (PsSeqGuard (CDynDeleted n)). exact Hk.
+    - apply (PsSeqGuard (CDynDeleted n)). apply (PsSeqGuard (CCntDeleted n)). exact Hk.
     - apply ps_eqv_sym. unfold ps_guard, ps_res_deleted. cbn [ps_call_prog].
       eapply ps_eqv_trans; [apply ps_eqv_assoc|].
       apply ps_eqv_bind_ext. intro a.
       destruct (a =? PS_FUEL) eqn:E.
       + cbn [ps_bind]. change (PS_FUEL =? PS_FUEL) with true. cbn iota. apply ps_eqv_refl.
-      + apply ps_eqv_refl.
+      + eapply ps_eqv_trans; [apply ps_eqv_assoc|].
+        apply ps_eqv_bind_ext. intro b.
+        destruct (b =? PS_FUEL) eqn:Eb.
+        * cbn [ps_bind]. change (PS_FUEL =? PS_FUEL) with true. cbn iota. apply ps_eqv_refl.
+        * cbn [ps_bind]. change (1 =? PS_FUEL) with false. cbn iota. apply ps_eqv_refl.
   Qed.
 End Seq.
 
@@ -168,8 +172,8 @@ Section Events.
         | Some r =>
             (if ps_del_bump r && (ps_del_value r mod psc_freq c =? 0)
              then [CCntTrack name (ps_del_value r)] else []) ++
-            CCntDeleted name :: CDynDeleted name ::
-            map (fun s => CObsDeleted (pss_key s)) (psr_subs r)
+            map (fun s => CObsDeleted (pss_key s)) (psr_subs r) ++
+            [CDynDeleted name; CCntDeleted name]
         end
     | PsEvReg name tuple token ck pkt =>
         match ps_find name m with
@@ -291,13 +295,13 @@ Section Events.
       unfold ps_ev_del. destruct (ps_find name m) as [r|]; [|constructor].
       fold (ps_del_bump r). fold (ps_del_value r). rewrite cfg_cnt, cfg_dyn. cbn [orb].
       rewrite andb_true_r.
-      assert (Rest : seqof (CCntDeleted name :: CDynDeleted name ::
-                              map (fun s => CObsDeleted (pss_key s)) (psr_subs r))
+      assert (Rest : seqof (map (fun s => CObsDeleted (pss_key s)) (psr_subs r) ++
+                              [CDynDeleted name; CCntDeleted name])
                            (ps_remove name m, [])
-                           (ps_when true (ps_res_deleted (psc_fuel c) true true name)
-                              (ps_untrack_all c (psr_subs r) (PsRet (Some (ps_remove name m, [])))))).
-      { unfold ps_when. apply ps_seqof_res_deleted.
-        rewrite <- (app_nil_r (map _ (psr_subs r))). apply ps_untrack_all_seqof. constructor. }
+                           (ps_untrack_all c (psr_subs r)
+                              (ps_when true (ps_res_deleted (psc_fuel c) true true name)
+                                 (PsRet (Some (ps_remove name m, [])))))).
+      { apply ps_untrack_all_seqof. unfold ps_when. apply ps_seqof_res_deleted. constructor. }
       destruct (ps_del_bump r && (ps_del_value r mod psc_freq c =? 0)); unfold ps_when at 1.
       + cbn [List.app].
         apply (PsSeqGuard pol (psc_la c) (psc_lt c) (psc_fuel c) (CCntTrack name (ps_del_value r))).
